@@ -69,12 +69,8 @@ func Crypt(enc bool, key, tweak, in []byte) ([]byte, error) {
 // CryptStats is Crypt and additionally reports in how many block transitions
 // the multiplication by α overflowed x^128 (the 0x87 reduction was applied).
 func CryptStats(enc bool, key, tweak, in []byte) ([]byte, int, error) {
-	carries := 0
 	if len(key)%2 != 0 {
 		return nil, 0, errors.New("xtsref: odd key length")
-	}
-	if len(tweak) != 16 || len(in) == 0 || len(in)%16 != 0 {
-		return nil, 0, errors.New("xtsref: bad length")
 	}
 	k1, err := aes.NewCipher(key[:len(key)/2])
 	if err != nil {
@@ -83,6 +79,22 @@ func CryptStats(enc bool, key, tweak, in []byte) ([]byte, int, error) {
 	k2, err := aes.NewCipher(key[len(key)/2:])
 	if err != nil {
 		return nil, 0, err
+	}
+	return CryptWith(enc, k1, k2, tweak, in)
+}
+
+// Block is a 16-byte block cipher (the XTS construction is generic in it).
+type Block interface {
+	Encrypt(dst, src []byte)
+	Decrypt(dst, src []byte)
+}
+
+// CryptWith is the XTS construction over arbitrary 16-byte block ciphers:
+// k1 processes the data blocks, k2 encrypts the tweak.
+func CryptWith(enc bool, k1, k2 Block, tweak, in []byte) ([]byte, int, error) {
+	carries := 0
+	if len(tweak) != 16 || len(in) == 0 || len(in)%16 != 0 {
+		return nil, 0, errors.New("xtsref: bad length")
 	}
 	t := make([]byte, 16)
 	k2.Encrypt(t, tweak)
